@@ -151,7 +151,9 @@ class Pipeline:
         self.linkerrs = []
         self.mnemonic_modes = set()
 
-    def run(self, cases, sem=True, pair=False, maxin=24, small_fams=(), fuel=48, timeout=1500, extra_decl=None):
+    def run(self, cases, sem=True, pair=False, maxin=24, small_fams=(), fuel=48, timeout=1500, extra_decl=None, defined_only=False):
+        """defined_only: in pair mode, still evaluate the source semantics and drop the inputs on which the source has no
+        defined meaning (index out of bounds, ...) or does not terminate: two translations may differ there."""
         """cases: list of dict(id, fam, body(optional AST for CSem), variants=[dict(name, args, src, scheme?)], fnames, init?)"""
         rnd = random.Random(common.seed() * 7919 + 13)
         st = self.stats
@@ -196,7 +198,14 @@ class Pipeline:
                                 vt[n] = dict(kind="a", w=8 if t == "CharPtr" else 16, sg=False, n=hv["size"], addr=addr[n], io=False, hidden=True)
                             else:
                                 vt[n] = dict(kind="p" if t in ("CharPtr", "CharPtrPtr", "ShortPtr") else "s", w=16 if t == "Short" else 8, sg=False, n=1, addr=addr[n], io=False, hidden=True)
-                        regions = regs
+                        regions = list(regs)
+                        # locals as the source semantics names them (unique ids): they live in CSem only; on the machine
+                        # side the compiler's own cells (hidden above) hold them.  They get scratch addresses so that the
+                        # memory function is total.
+                        for li, lc in enumerate(c.get("locals") or []):
+                            vt[lc["name"]] = dict(kind="s", w=lc["w"], sg=lc["sg"], n=1, addr=0x300 + 2 * li, io=False, hidden=True)
+                        if c.get("locals"):
+                            regions.append(dict(lo=0x300, hi=0x3FF, kind="ram", delta=0))
                         base_addr = addr
                     else:
                         # same variables at the same addresses in every variant, or results cannot be compared by address
@@ -233,7 +242,7 @@ class Pipeline:
                                          code=[" ".join(str(x[k]) for k in ("op", "syn", "a")) for x in uniq[0]["code"]][:40]))
         # ---- source side
         d = common.workdir("ref_" + self.name)
-        semcases = [t for t in tcases if t["sem"]]
+        semcases = [t for t in tcases if t["sem"] or (defined_only and t["body"])]
         if semcases:
             exp = {}
 
@@ -261,9 +270,13 @@ class Pipeline:
                         i["ex"] = o["ex"]
                         i["bound"] = 300 + 3 * t["_maxlen"] * (o["it"] + 1)
                         keep.append(i)
+                    elif o["st"] == "amb" and not t["sem"]:
+                        i["ex"] = {}
+                        i["bound"] = t.get("bound", 2500)
+                        keep.append(i)
                 t["inputs"] = keep
         for t in tcases:
-            if not t["sem"]:
+            if not t["sem"] and not (defined_only and t["body"]):
                 for i in t["inputs"]:
                     i["ex"] = {}
                     i["bound"] = t.get("bound", 2500)
